@@ -8,18 +8,22 @@
 (*         served in sequence by the same Context                           *)
 (* events: built {produces}   route.Produces as the router holds it          *)
 (*         respond {entry, method, target, creds, keycreds, declared, accept, *)
-(*                  outcome, status, ctype, produced, given, body, errs,     *)
+(*                  preset (Content-Type put on the response by an upstream   *)
+(*                  middleware), outcome, status, ctype, produced, given,     *)
+(*                  body, errs,                                               *)
 (*                  wwwauth, panic}                                          *)
 EXTENDS Respond, Json, IOUtils
 
 VARIABLES l, st, skipping, fails, cs
 
 RInit(e) == [produces |-> e.route_produces, default |-> e.default, registry |-> e.registry,
-             declared |-> <<>>, realm |-> e.realm, secure |-> e.secure, authkind |-> e.authkind]
+             declared |-> <<>>, realm |-> e.realm, defrealm |-> e.defrealm, secure |-> e.secure, authkind |-> e.authkind]
 \* the configuration as the addressed operation sees it
 Op(c, e) == [c EXCEPT !.declared = e.declared]
 
-EffRealm(c) == IF c.realm = "" \/ c.authkind = 2 THEN "API" ELSE c.realm     \* security.DefaultRealmName
+\* "the configured realm": the one given, else security.DefaultRealmName as it was when the authenticator was
+\* built (defrealm) - the package variable is reassigned afterwards
+EffRealm(c) == IF c.realm = "" \/ c.authkind = 2 THEN c.defrealm ELSE c.realm
 
 Rq(e) == [method |-> e.method, accept |-> e.accept]
 Err(code) == [k |-> "error", code |-> code, scripted |-> FALSE]
